@@ -12,6 +12,7 @@ ops   : ("p", k, side, ks)        k-th action the model predicts to change the s
         ("i", k, side, ks)        redundant-but-applicable exploit / escalation (all gates pass, model predicts no change)
         ("r", side, ks)           repeat the previous action
         ("o",)                    no-op (NoOp action object)
+        ("b", k)                  burn: repeat a cheap action until k%9+1 steps before the step limit
         ("x",)                    reset
         ("g", j, k, side, ks)     generative_step on the j-th saved earlier state (k-th progress action there)
 side 'lo'/'hi' = draw below/above the action's probability, ks varies the seed.
@@ -379,6 +380,23 @@ def run_history(h, ops, on_rec, on_reset=None, both_sides=True, do_gen=True):
             obs, info = h.reset()
             if on_reset:
                 on_reset(h, obs, info)
+            continue
+        if k == "b":
+            # burn steps: fast-forward the episode to just before the step limit (large limits are
+            # only reached by long histories) - every step still goes through the oracles
+            lim = h.spec.step_limit
+            if lim is None or lim > 4000:
+                continue
+            n = lim - h.shadow_steps - (op[1] % 9) - 1
+            base = h.last_act or h.acts[op[1] % len(h.acts)]
+            noop = M.Act("noop", (1, 0))
+            for j in range(max(0, n)):
+                act = noop if j % 5 == 4 else base
+                rec = h.exec_step(act, "lo", j)
+                on_rec(h, rec, None)
+                h.install(rec)
+                if h.diverged:
+                    return "diverged"
             continue
         if k == "g":
             if not h.saved:
